@@ -520,6 +520,8 @@ def rule_c(ctx: Context, R: Reporter):
                         names = {x.id for x in ast.walk(wd.value) if isinstance(x, ast.Name)} & idx_names
                         if names and all(any(dd.node is idn for dd in flow.reaching(wd.node, nm)) for nm in names):
                             good.append(nid)
+                        elif not names and _derived_from(flow, wd.node, wd.value, idx_names, idn):
+                            good.append(nid)
                 ok = bool(good) and not flow.cfg.reaches(idx_def, rn.id, blocked=good)
             stale = []
             R.check("C12.c", f"weights are re-derived together with the index defined at line {idn.lineno}", ok and not stale, fi, idn.stmt,
@@ -540,13 +542,105 @@ def rule_c(ctx: Context, R: Reporter):
                             v = m.stmt.value
                             leaves, _ = expr_leaves(fi.node, v, m)
                             uses_old_weights = any(isinstance(x, ast.Name) and name_tag(x.id) == "weights" for x in ast.walk(v))
-                            uniform = isinstance(v, ast.BinOp) and isinstance(v.op, ast.Div) and any(isinstance(c, ast.Call) and (ctx.res.external_name(fi, c) or "") in ("numpy.ones", "numpy.full") for c in ast.walk(v.left)) \
-                                and norm_text(_len_arg(v.left)) == norm_text(_len_of(v.right))
+                            uniform = _is_uniform(ctx, fi, flow, m, v)
                             found = True
                             R.check("C12.c", "after resampling the weights are uniform 1/len(idx)", uniform and not uses_old_weights, fi, m.stmt,
                                     msg=f"{fi.short}: after systematic resampling weights are `{unparse(v)[:60]}`, not ones(len(idx))/len(idx)", key="uniform-after-resample")
                 R.check("C12.c", "weights are reset after resampling", found, fi, n.stmt,
                         msg=f"{fi.short}: no weights assignment follows the resampling index", key="weights-reset-after-resample")
+
+
+def _derived_from(flow, node, expr, idx_names, idn, _depth=0) -> bool:
+    """`expr` mentions, through locals that each have one reaching definition, a name defined at `idn`."""
+    if _depth > 4:
+        return False
+    for x in ast.walk(expr):
+        if not isinstance(x, ast.Name):
+            continue
+        ds = flow.reaching(node, x.id)
+        if x.id in idx_names:
+            if ds and all(dd.node is idn for dd in ds):
+                return True
+            continue
+        if len(ds) == 1 and ds[0].kind == "assign" and ds[0].value is not None and ds[0].node is not None and not ds[0].path:
+            if _derived_from(flow, ds[0].node, ds[0].value, idx_names, idn, _depth + 1):
+                return True
+    return False
+
+
+def _subst_lengths(flow, node, e, _depth=0):
+    """Replace a local that has one reaching definition `n = len(..)` / `.shape[0]` / `.size` by that expression."""
+    if _depth > 3:
+        return e
+
+    class S(ast.NodeTransformer):
+        def visit_Name(self, nm):
+            ds = flow.reaching(node, nm.id)
+            if len(ds) == 1 and ds[0].kind == "assign" and ds[0].value is not None and ds[0].node is not None and not ds[0].path:
+                v = ds[0].value
+                if (isinstance(v, ast.Call) and isinstance(v.func, ast.Name) and v.func.id == "len") \
+                        or (isinstance(v, ast.Attribute) and v.attr == "size") \
+                        or (isinstance(v, ast.Subscript) and isinstance(v.value, ast.Attribute) and v.value.attr == "shape"):
+                    return _subst_lengths(flow, ds[0].node, v, _depth + 1)
+            return nm
+    import copy
+    return S().visit(copy.deepcopy(e))
+
+
+def _len_text(e) -> str:
+    """Canonical text of a length expression: len(a), a.shape[0], a.size (1-D index) name the same count."""
+    if isinstance(e, ast.Call) and isinstance(e.func, ast.Name) and e.func.id == "len" and len(e.args) == 1:
+        return "len:" + norm_text(e.args[0])
+    if isinstance(e, ast.Subscript) and isinstance(e.value, ast.Attribute) and e.value.attr == "shape" \
+            and isinstance(e.slice, ast.Constant) and e.slice.value == 0:
+        return "len:" + norm_text(e.value.value)
+    if isinstance(e, ast.Call) and isinstance(e.func, ast.Name) and e.func.id in ("float", "int") and len(e.args) == 1:
+        return _len_text(e.args[0])
+    return "expr:" + norm_text(e)
+
+
+def _is_one(e) -> bool:
+    return isinstance(e, ast.Constant) and not isinstance(e.value, bool) and isinstance(e.value, (int, float)) and e.value == 1
+
+
+def _is_uniform(ctx, fi, flow, m, v) -> bool:
+    """ones(L)/L, full(L, 1)/L, full(L, 1/L), ones(L)*(1/L): L the same length expression in both places."""
+    v = _subst_lengths(flow, m, v)
+
+    def ext(c):
+        return (ctx.res.external_name(fi, c) or "") if isinstance(c, ast.Call) else ""
+
+    def alloc(c, want_fill=None):
+        """(length text, fill expr or None) of ones(L[, dtype]) / full(L, f[, dtype])."""
+        if ext(c) == "numpy.ones" and c.args:
+            return _len_text(c.args[0]), None
+        if ext(c) == "numpy.full" and c.args:
+            fill = c.args[1] if len(c.args) > 1 else next((k.value for k in c.keywords if k.arg == "fill_value"), None)
+            if fill is not None:
+                return _len_text(c.args[0]), fill
+        return None
+
+    def recip(e):
+        if isinstance(e, ast.BinOp) and isinstance(e.op, ast.Div) and _is_one(e.left):
+            return _len_text(e.right)
+        return None
+
+    if isinstance(v, ast.BinOp) and isinstance(v.op, ast.Div):
+        a = alloc(v.left)
+        if a and (a[1] is None or _is_one(a[1])):
+            return a[0] == _len_text(v.right)
+        return False
+    if isinstance(v, ast.BinOp) and isinstance(v.op, ast.Mult):
+        for l, r in ((v.left, v.right), (v.right, v.left)):
+            a = alloc(l)
+            if a and (a[1] is None or _is_one(a[1])) and recip(r) == a[0]:
+                return True
+        return False
+    if isinstance(v, ast.Call):
+        a = alloc(v)
+        if a and a[1] is not None:
+            return recip(a[1]) == a[0]
+    return False
 
 
 def _len_arg(e):
